@@ -42,6 +42,10 @@ struct V1 : public VoidApply1Functor<V1, Val> { unsigned seen, twice; V1() : see
 struct V2 : public VoidApply2Functor<V2, Val, Val> { unsigned seen, twice; V2() : seen(0), twice(0) {}
   void ApplyOperation(const Val& a, const Val& b) { unsigned m = 1u << (a * NVAL + b); twice |= seen & m; seen |= m; } };
 
+// a void binary functor that ends the traversal early: it stops at the first leaf pair whose left value is `stopAt` (NVAL: never)
+struct V2S : public VoidApply2Functor<V2S, Val, Val> { unsigned seen; unsigned stopAt; V2S() : seen(0), stopAt(NVAL) {}
+  void ApplyOperation(const Val& a, const Val& b) { seen |= 1u << (a * NVAL + b); if (a == stopAt) this->stopProcessing(); } };
+
 static inline unsigned drawOp() { return OPSEL >= 0 ? (unsigned)(OPSEL) : pick(4); }
 static void same(const MTBDD& m, const Tab& t, int id) { sameFunction(m, t, id); }
 
@@ -100,6 +104,15 @@ extern "C" void harness(void)
   CHECK(v1.twice == 0, 31); CHECK(v2.twice == 0, 33);
 #endif
   v2(mg, mg); { unsigned d = 0; for (unsigned a = 0; a < NA; ++a) d |= 1u << (g.t.v[a] * NVAL + g.t.v[a]); CHECK(v2.seen == (img2 | d), 34); }
+  // an early exit belongs to the call that asked for it: a functor object whose traversal was stopped (at the first leaf pair whose
+  // left value is the symbolic stopAt) visits only reachable pairs in that call and, used again, applies the operation to every
+  // reachable pair again (the traversal state does not survive the call)
+  { V2S vs; vs.stopAt = oa; vs(mf, mg); CHECK((vs.seen & ~img2) == 0, 35); CHECK(vs.seen != 0, 36);
+    bool hit = false; for (unsigned a = 0; a < NA; ++a) hit = hit || f.t.v[a] == oa;
+    CHECK(hit || vs.seen == img2, 37);                 // never stopped: everything visited
+    vs.seen = 0; vs.stopAt = NVAL; vs(mf, mg); CHECK(vs.seen == img2, 38);
+    unsigned d = 0; for (unsigned a = 0; a < NA; ++a) d |= 1u << (g.t.v[a] * NVAL + f.t.v[a]);
+    vs.seen = 0; vs.stopAt = oa; vs(mg, mf); vs.seen = 0; vs.stopAt = NVAL; vs(mg, mf); CHECK(vs.seen == d, 39); }
   MTBDD r(mf); want = f.t; wantDflt = f.dflt;
 #endif
 #if KIND != 4 && defined(VS_SELFTEST_1)
